@@ -450,15 +450,11 @@ func c13(c *Ctx) {
 			// gate: keccak(X) == key hash where X is what is stored
 			var hashed ssa.Value
 			g := bytesEqualFact(func(v ssa.Value) bool {
-				cc2, ok := v.(*ssa.Call)
-				if !ok || core.CalleeID(cc2) != keccak256 {
-					return false
+				item, ok := keccakOperand(v)
+				if ok && item != nil {
+					hashed = core.Unwrap(item)
 				}
-				el := core.VariadicElems(cc2.Call.Args[0])
-				if len(el) == 1 {
-					hashed = core.Unwrap(el[0])
-				}
-				return true
+				return ok
 			}, func(v ssa.Value) bool { return derivesFromParam(v, keyP) && !derivesFromParam(v, contentP) })
 			w := core.InstrGuarded(ci, g, nil)
 			r.Check(w == nil, "R3.store-writes", name+" hash-gate", p.Pos(ci.Pos()), "stored only after keccak(item) == the key's hash", "the state store can write an item whose hash is not the key's: "+p.PathString(w))
@@ -538,26 +534,76 @@ func c13(c *Ctx) {
 		return
 	}
 	tn := core.FuncName(T)
-	pathT := T.Params[1]
-	var recs []*ssa.Call
+	// a step of the walk: continue with (child, rest of the path). Either a recursive call
+	// T(child, rest), or - iterative form - the values the loop-carried (node, path) pair takes
+	// on a back edge. pathT is the path as the step sees it: the parameter, or the loop variable.
+	var pathT ssa.Value = T.Params[1]
+	type walkStep struct {
+		anchor      ssa.Instruction
+		child, rest ssa.Value
+	}
+	var recs []walkStep
 	core.Calls(T, func(ci ssa.CallInstruction) {
 		if core.StaticCalleeFn(ci) == T {
 			if call, ok := ci.(*ssa.Call); ok {
-				recs = append(recs, call)
+				recs = append(recs, walkStep{call, call.Call.Args[0], call.Call.Args[1]})
 			}
 		}
 	})
+	if len(recs) == 0 {
+		var nodePhi, pathPhi *ssa.Phi
+		for _, b := range T.Blocks {
+			for _, in := range b.Instrs {
+				ph, ok := in.(*ssa.Phi)
+				if !ok {
+					continue
+				}
+				for _, e := range ph.Edges {
+					if e == ssa.Value(T.Params[1]) {
+						pathPhi = ph
+					}
+					if e == ssa.Value(T.Params[0]) {
+						nodePhi = ph
+					}
+				}
+			}
+		}
+		if nodePhi != nil && pathPhi != nil && nodePhi.Block() == pathPhi.Block() {
+			pathT = pathPhi
+			var pairs func(nv, pv ssa.Value, d int)
+			pairs = func(nv, pv ssa.Value, d int) {
+				np, ok1 := nv.(*ssa.Phi)
+				pp, ok2 := pv.(*ssa.Phi)
+				if ok1 && ok2 && np.Block() == pp.Block() && np != nodePhi && d < 4 {
+					for j := range np.Edges {
+						pairs(np.Edges[j], pp.Edges[j], d+1)
+					}
+					return
+				}
+				if pv == ssa.Value(T.Params[1]) || pv == ssa.Value(pathPhi) {
+					return
+				}
+				if in, ok := pv.(ssa.Instruction); ok {
+					recs = append(recs, walkStep{in, nv, pv})
+				}
+			}
+			for j := range pathPhi.Edges {
+				pairs(nodePhi.Edges[j], pathPhi.Edges[j], 0)
+			}
+		}
+	}
 	nBranch, nExt := 0, 0
-	for _, rc := range recs {
-		sl, ok := rc.Call.Args[1].(*ssa.Slice)
+	for _, st := range recs {
+		rc := st.anchor
+		sl, ok := st.rest.(*ssa.Slice)
 		if !ok || sl.X != ssa.Value(pathT) || sl.High != nil {
-			r.Fail("R4.traversal", tn+" recursion-path", p.Pos(rc.Pos()), "the recursion does not continue with a suffix of the path")
+			r.Fail("R4.traversal", tn+" recursion-path", p.Pos(core.InstrPos(rc)), "the recursion does not continue with a suffix of the path")
 			continue
 		}
 		if k, isC := core.ConstInt(sl.Low); isC {
 			// branch: child selected by path[0], continue with path[1:]
 			nBranch++
-			okChild := core.Derives(rc.Call.Args[0], func(v ssa.Value) bool {
+			okChild := core.Derives(st.child, func(v ssa.Value) bool {
 				ia, ok := v.(*ssa.IndexAddr)
 				if !ok {
 					return false
@@ -571,7 +617,7 @@ func c13(c *Ctx) {
 					return isZ && z == 0
 				}, core.DeriveOpts{})
 			}, core.DeriveOpts{})
-			r.Check(k == 1 && okChild, "R4.traversal", tn+" branch-consumes-one", p.Pos(rc.Pos()), "child = Children[path[0]], continue with path[1:]", "the branch case does not consume exactly the nibble it used to select the child")
+			r.Check(k == 1 && okChild, "R4.traversal", tn+" branch-consumes-one", p.Pos(core.InstrPos(rc)), "child = Children[path[0]], continue with path[1:]", "the branch case does not consume exactly the nibble it used to select the child")
 		} else {
 			// extension: continue with path[len(key):] after comparing every key nibble
 			nExt++
@@ -631,7 +677,7 @@ func c13(c *Ctx) {
 				}
 				okCmp = found
 			}
-			r.Check(okLen && okCmp, "R4.traversal", tn+" extension-consumes-key", p.Pos(rc.Pos()), "every key nibble is compared with the path and the walk continues with path[len(key):]", "the extension case does not consume exactly the nibbles it compared")
+			r.Check(okLen && okCmp, "R4.traversal", tn+" extension-consumes-key", p.Pos(core.InstrPos(rc)), "every key nibble is compared with the path and the walk continues with path[len(key):]", "the extension case does not consume exactly the nibbles it compared")
 		}
 	}
 	r.Check(nBranch == 1 && nExt == 1, "R4.traversal", tn+" cases", p.Pos(T.Pos()), "one branch and one extension recursion", fmt.Sprintf("expected one branch and one extension recursion, found %d/%d", nBranch, nExt))
@@ -696,4 +742,80 @@ func storedResult(v ssa.Value, call *ssa.Call, idx int) bool {
 		}
 	}
 	return false
+}
+
+// keccakOperand: v is keccak256(item), possibly converted or sliced, or the result of a module
+// function with a single parameter that returns keccak256 of (what) that parameter (points to).
+// Returns the item hashed (nil when it cannot be named).
+func keccakOperand(v ssa.Value) (ssa.Value, bool) {
+	for i := 0; i < 4; i++ {
+		v = core.Unwrap(v)
+		switch x := v.(type) {
+		case *ssa.Slice:
+			v = x.X
+			continue
+		case *ssa.Convert:
+			v = x.X
+			continue
+		case *ssa.SliceToArrayPointer:
+			v = x.X
+			continue
+		case *ssa.UnOp:
+			if x.Op == token.MUL {
+				if sp, ok := x.X.(*ssa.SliceToArrayPointer); ok {
+					v = sp.X
+					continue
+				}
+			}
+		}
+		break
+	}
+	cc, ok := v.(*ssa.Call)
+	if !ok {
+		return nil, false
+	}
+	if core.CalleeID(cc) == keccak256 {
+		el := core.VariadicElems(cc.Call.Args[0])
+		if len(el) == 1 {
+			return el[0], true
+		}
+		return nil, true
+	}
+	f := core.StaticCalleeFn(cc)
+	if f == nil || !core.InModule(f) || len(f.Params) != 1 || len(cc.Call.Args) != 1 {
+		return nil, false
+	}
+	rets := core.Returns(f)
+	if len(rets) != 1 || len(rets[0].Results) != 1 {
+		return nil, false
+	}
+	inner, ok := keccakOperand(rets[0].Results[0])
+	if !ok || inner == nil {
+		return nil, false
+	}
+	// the inner item is the parameter (or what it points to)
+	base := core.Unwrap(inner)
+	if u, isLoad := base.(*ssa.UnOp); isLoad && u.Op == token.MUL {
+		base = u.X
+	}
+	if base != ssa.Value(f.Params[0]) {
+		return nil, false
+	}
+	arg := cc.Call.Args[0]
+	if a, isCell := arg.(*ssa.Alloc); isCell {
+		if refs := a.Referrers(); refs != nil {
+			var st *ssa.Store
+			n := 0
+			for _, rf := range *refs {
+				if s2, ok := rf.(*ssa.Store); ok && s2.Addr == ssa.Value(a) {
+					st = s2
+					n++
+				}
+			}
+			if n == 1 {
+				return st.Val, true
+			}
+		}
+	}
+	return arg, true
 }
